@@ -33,7 +33,7 @@ func init() {
 		ID:      "C07",
 		Flavour: "plain",
 		Rule: "cases: decode inputs of every length 0..100 (nil and empty), 32-byte integers from the structured 256-bit list around n (n-40..n+40, n with each limb replaced by 0/limb±1/2^64-1, " +
-			"values equal to n in three limbs, 2^k, 2^k±1, n±2^k, 2^256-1) and PRNG values biased to [n, 2^256); each through Decode, UnmarshalBinary and DecodeHex; encode cases on structured + Montgomery-structured + PRNG scalars. " +
+			"values equal to n in three limbs, 2^k, 2^k±1, n±2^k, 2^256-1) and PRNG values biased to [n, 2^256); each through Decode, UnmarshalBinary and DecodeHex; encode cases on structured + Montgomery-structured + PRNG scalars, and on scalar objects that first held another value, were encoded, and were then driven to the value through each mutator of the API (Set, the decoders, CSelect, arithmetic, SetUInt64, Invert, Pow, Random on scripted entropy including draws in [n, 2^256) and draws of 0 and n that must be retried). " +
 			"Oracle: accept iff len==32 and OS2IP<n (math/big); accepted value and Encode(Decode(b))==b; the three rejection causes (empty, wrong length, >=n) must map to three pairwise-distinct, stable error values; " +
 			"Encode/Hex/MarshalBinary compared with the big-endian bytes of the value. non-trivial = 32-byte decode input or any encode case with value>1; distinct by (kind, input).",
 		NewCase:  func() any { return &c07Case{} },
